@@ -44,12 +44,13 @@ def handleFileSrc (hdr : List String) (body : List (List String)) : List String 
       let model := blks.map (fun b => s!"model blk {idTok b.id} {b.num} ppok") ++ ["model fsend " ++ endStr e]
       -- C10 monitor on the implementation's own delivery: stored order from the first block ≥ start, each once,
       -- paired with its own preprocessor result; non-sequential blocks never delivered
-      let stored : List Blk := ((bundles.filter (fun b => b.base + bs > st)).flatMap (·.blocks)).filter (fun b => b.num ≥ st)
+      -- stored blocks the source must deliver: at/after the start block, legacy copies below their bundle base excluded
+      let stored : List Blk := (bundles.filter (fun b => b.base + bs > st)).flatMap (fun bu => bu.blocks.filter (fun b => b.num ≥ st && b.num ≥ bu.base))
       let impl : List (Id × String) := body.filterMap (fun ws => match ws with
         | ["impl", "blk", i, _, pp] => some (tokId i, pp) | _ => none)
       let implIds := impl.map (·.1)
       let m1 := if impl.all (·.2 == "ppok") then [] else ["monitor C10 FAIL block-paired-with-another-blocks-preprocessor-result"]
-      let m2 := if implIds == (stored.map (·.id)).take implIds.length || !(bundles.all (fun b => b.blocks.all (fun x => x.num ≥ b.base)))
+      let m2 := if implIds == (stored.map (·.id)).take implIds.length
                 then [] else ["monitor C10 FAIL delivery-is-not-a-prefix-of-the-stored-order-from-start"]
       let fsend := body.findSome? (fun ws => match ws with | "impl" :: "fsend" :: rest => some rest | _ => none)
       let m3 := match fsend with
@@ -57,8 +58,73 @@ def handleFileSrc (hdr : List String) (body : List (List String)) : List String 
           -- stop error only after every block up to the stop block was delivered
           if (stored.filter (fun b => b.num ≤ sp)).all (fun b => implIds.contains b.id) then [] else ["monitor C10 FAIL stop-reached-before-all-blocks-up-to-stop-were-delivered"]
         | some ["hang"] | some ["panic"] => ["monitor C10 FAIL file-source-hang-or-crash"]
+        | some ["nonseq", x] =>
+          -- the out-of-sequence error is legitimate only at a real break of the parent links of the stored sequence
+          let n := implIds.length
+          (match stored[n]?, (if n == 0 then none else stored[n - 1]?) with
+           | some b, some prev => if idTok b.id == x && b.parent != prev.id then [] else ["monitor C10 FAIL non-sequential-error-although-the-stored-blocks-are-parent-linked"]
+           | some _, none => ["monitor C10 FAIL non-sequential-error-on-the-first-block"]
+           | none, _ => ["monitor C10 FAIL non-sequential-error-although-the-stored-blocks-are-parent-linked"])
         | _ => []
       model ++ (m1 ++ m2 ++ m3).take 1
+    | _, _, _ => ["model bad-case"]
+  | _ => ["model bad-case"]
+
+/-- suite `faults`: one injected fault per run. The exact number of blocks delivered before the fault depends on
+    how far the reader goroutines ran ahead, so the model yields an outcome *set*: a prefix of the fault-free
+    sequence no longer than `bound`, ending with the fault's error class. When the implementation's outcome
+    lies in the set the model line echoes it; otherwise the model prints the longest allowed outcome. -/
+def handleFaults (hdr : List String) (body : List (List String)) : List String :=
+  match hdr with
+  | [_, "faults", st, sp, bs, _, _, fault] =>
+    match st.toNat?, sp.toNat?, bs.toNat? with
+    | some st, some sp, some bs =>
+      let bundles := parseBundles body
+      let fp := fault.splitOn ":"
+      let arg (i : Nat) : Nat := ((fp.getD i "0").toNat?).getD 0
+      let kind := fp.getD 0 ""
+      let failAt := if kind == "handler" then some (arg 1) else none
+      let (full, fe) := run ⟨st, sp, bs, []⟩ bundles failAt
+      let eligible (b : Blk) (base : Nat) : Bool := b.num ≥ st && b.num ≥ base
+      let countBefore (base : Nat) : Nat :=
+        ((bundles.filter (fun bu => bu.base < base)).flatMap (fun bu => bu.blocks.filter (fun b => eligible b bu.base))).length
+      let inFile (base idx : Nat) : Nat :=
+        match bundles.find? (·.base == base) with
+        | some bu => ((bu.blocks.take idx).filter (fun b => eligible b bu.base)).length
+        | none => 0
+      let (bound, cls) : Nat × String :=
+        if kind == "open" then (countBefore (arg 1), "openerr")
+        else if kind == "exists" then (countBefore (arg 1), "existserr")
+        else if kind == "read" then
+          let mode := fp.getD 2 ""
+          let cls := if mode == "badheader" then "headererr" else if mode == "undecodable" then "decodeerr" else "readerr"
+          (countBefore (arg 1) + (if mode == "badheader" then 0 else inFile (arg 1) (arg 3)), cls)
+        else if kind == "pre" then ((full.takeWhile (fun b => b.num != arg 1)).length, "preprocerr")
+        else (full.length, endStr fe)
+      let bound := min bound full.length
+      -- the fault is never reached when the fault-free run ends first (e.g. the stop block comes before it)
+      let reached : Bool := kind == "handler" || bound < full.length || fe != .stopReached ||
+        (kind == "open" || kind == "exists" || kind == "read")
+      let implBlks : List Id := body.filterMap (fun ws => match ws with | ["impl", "blk", i, _, _] => some (tokId i) | _ => none)
+      let implEnd := (body.findSome? (fun ws => match ws with | "impl" :: "fsend" :: rest => some (unwords rest) | _ => none)).getD "none"
+      let late := body.any (fun ws => ws.take 2 == ["impl", "late"])
+      let isPrefix := implBlks == (full.map (·.id)).take implBlks.length
+      let okSet := if kind == "handler" then (implBlks == full.map (·.id) && implEnd == endStr fe)
+        else (isPrefix && implBlks.length ≤ bound && implEnd == cls) ||
+             (!reached && implBlks == full.map (·.id) && implEnd == endStr fe) ||
+             -- a fault beyond the point where the run ends anyway
+             (implBlks == full.map (·.id) && implEnd == endStr fe && bound == full.length)
+      let model :=
+        if okSet && !late then implBlks.map (fun i => match full.find? (·.id == i) with
+            | some b => s!"model blk {idTok b.id} {b.num} ppok" | none => "model blk ?") ++ ["model fsend " ++ implEnd]
+        else (full.take bound).map (fun b => s!"model blk {idTok b.id} {b.num} ppok") ++ ["model fsend " ++ cls]
+      let mon : List String :=
+        if implEnd == "hang" || implEnd.endsWith "+notterminated" then ["monitor C11 FAIL run-does-not-return-or-source-not-terminated-after-a-fault"]
+        else if late then ["monitor C11 FAIL handler-called-after-the-source-terminated"]
+        else if !isPrefix then ["monitor C11 FAIL blocks-delivered-before-the-fault-are-not-a-gap-free-in-order-prefix"]
+        else if !okSet then ["monitor C11 FAIL fault-outcome-outside-the-allowed-set (delivered " ++ toString implBlks.length ++ ", bound " ++ toString bound ++ ", end " ++ implEnd ++ ", expected " ++ cls ++ ")"]
+        else []
+      model ++ mon
     | _, _, _ => ["model bad-case"]
   | _ => ["model bad-case"]
 
